@@ -5,6 +5,7 @@ package main
 import (
 	"fmt"
 	"go/types"
+	"os"
 	"strconv"
 	"strings"
 
@@ -67,6 +68,9 @@ func (f *Frame) lookupLocal(name string, st *State, li *loopInfo) (Bound, bool) 
 	consider := func(v ssa.Value, isCell bool, b *ssa.BasicBlock, pos int) {
 		c := &cand{v, isCell}
 		any = c
+		if os.Getenv("GOVC_DEBUG_LOOKUP") == name {
+			fmt.Fprintf(os.Stderr, "  cand %s: %v (%T) block %v pos %d\n", name, v, v, b, pos)
+		}
 		if f.curBlock == nil || !(b == f.curBlock || b.Dominates(f.curBlock)) {
 			return
 		}
@@ -116,6 +120,13 @@ func (f *Frame) lookupLocal(name string, st *State, li *loopInfo) (Bound, bool) 
 	if pick == nil {
 		pick = any
 	}
+	if pick != nil && !pick.isCell {
+		if k, ok := pick.v.(*ssa.Const); ok && k.IsNil() {
+			if alt := f.altBinding(name); alt != nil {
+				pick = &cand{alt, false}
+			}
+		}
+	}
 	// an address-taken variable has one cell: its current content is the value, whatever was last assigned
 	for _, b := range f.fn.Blocks {
 		for _, in := range b.Instrs {
@@ -128,6 +139,9 @@ func (f *Frame) lookupLocal(name string, st *State, li *loopInfo) (Bound, bool) 
 	}
 	if pick == nil {
 		return Bound{}, false
+	}
+	if os.Getenv("GOVC_DEBUG_LOOKUP") == name {
+		fmt.Fprintf(os.Stderr, "lookup %s in %s (block %v): pick=%v (%T) cell=%v best=%v depth=%d pos=%d\n", name, f.key, f.curBlock, pick.v, pick.v, pick.isCell, best != nil, bestDepth, bestPos)
 	}
 	if pick.isCell {
 		l, ok := f.locOf(pick.v)
